@@ -1291,15 +1291,21 @@ static qtreetbl_obj_t *remove_obj(qtreetbl_t *tbl, qtreetbl_obj_t *obj,
             cmp = tbl->compare(name, namesize, obj->name, obj->namesize);
         }
         if (cmp == 0) {
-            // copy min to this then remove min
+            // swap key and value with min then remove min, which frees them.
             qtreetbl_obj_t *minobj = find_min(obj->right);
             assert(minobj != NULL);
-            free(obj->name);
-            free(obj->data);
-            obj->name = qmemdup(minobj->name, minobj->namesize);
+            void *name = obj->name;
+            size_t namesize = obj->namesize;
+            void *data = obj->data;
+            size_t datasize = obj->datasize;
+            obj->name = minobj->name;
             obj->namesize = minobj->namesize;
-            obj->data = qmemdup(minobj->data, minobj->datasize);
+            obj->data = minobj->data;
             obj->datasize = minobj->datasize;
+            minobj->name = name;
+            minobj->namesize = namesize;
+            minobj->data = data;
+            minobj->datasize = datasize;
             obj->right = remove_min(obj->right);
             tbl->num--;
         } else {
